@@ -3,6 +3,14 @@ CONSTANTS MaxCalls = 2
           FreeCalls = 1
           Scope = "quick"
           Adopt = FALSE
+          MaxEdits = 0
+          MinEdits = 0
+          Probes = TRUE
+          FirstOps = {"inc", "exc", "find", "one"}
+          Srcs = {"live"}
+          Ons = {"t", "last"}
+          NameIds = {0}
+          Gen = TRUE
 INIT Init
-NEXT Next
+NEXT NextNoEdit
 CONSTRAINT GenBound
